@@ -12,7 +12,7 @@
            Outside the guard at W = 32 lay finding F8 (repaired): [C03_w32_former_witness_repaired]. *)
 From Coq Require Import NArith ZArith List Bool.
 From SFV Require Import Base.Bytes Msgpack.Tree Gen.CodesGen Write.Writer Write.WSpec Write.Grammar
-  Write.WGuard Write.WriteProofs Write.GrammarProofs Base.RsPrelude Gen.StateGen Write.StateGenEq Gen.WriteCtxGen Write.WriteCtxGenEq Ctx.Interner Ctx.InternerProofs.
+  Write.WGuard Write.WriteProofs Write.GrammarProofs Base.RsPrelude Gen.StateGen Write.StateGenEq Gen.WriteCtxGen Write.WriteCtxGenEq Write.WriteCodeRun Gen.InternGen Ctx.Interner Ctx.InternerProofs.
 Import ListNotations.
 Open Scope N_scope.
 
@@ -296,3 +296,31 @@ Proof. exact gen_abi_new_utf8_str. Qed.
 Theorem C03_code_abi_finalize : forall W trap gc c, R gc c ->
   Context_shopify_function_output_finalize_and_return_msgpack_bytes W trap gc = GOk (gc, finalize c).
 Proof. exact gen_abi_finalize. Qed.
+
+(** * Whole call sequences on the translated code
+
+    [gen_step] is one ABI call on the regenerated Rust (the exported function; for a string write also the native glue's
+    part: unpack status and destination from the double-width result and copy the bytes there only on success --
+    that part is written by hand, as api/src/lib.rs provider_fallback does it).  For EVERY finite sequence of calls whose
+    output fits the address space ([ok_run]), from related contexts -- in particular from the fresh ones -- the translated
+    Rust returns exactly the model's statuses and ends in a related context, or both panic.  Hence C03_status, C03_frame,
+    C03_fits, C03_complete and C02 are statements about the traces of the translated code. *)
+Theorem C03_code_run : forall W trap, 4 <= W -> forall ops gc c, R gc c -> ok_run W trap c ops = true ->
+  match gen_run W trap gc ops, model_run W trap c ops with
+  | GOk (gc', codes), Some (c', codes') => codes = codes' /\ R gc' c'
+  | GPanic _, None => True
+  | _, _ => False
+  end.
+Proof. exact code_run_agrees. Qed.
+
+Theorem C03_code_initial : R (mkContext State_Start [] [] (mkStringInterner [] [])) init.
+Proof. constructor; [reflexivity|reflexivity|reflexivity|exact wf_i_empty]. Qed.
+
+(** non-vacuity: a document written through the translated code at W = 32, with a rejected call in the middle *)
+Example C03_code_run_example :
+  let ops := [OStartObj 1; OBool 7; OStr [107]; OStartArr 2; OI32 (-5); OStr [104; 105]; OFinArr; OFinObj; ONull] in
+  ok_run 32 true init ops = true /\
+  gen_run 32 true (mkContext State_Start [] [] (mkStringInterner [] [])) ops
+  = GOk (mkContext State_End [] [0x81; 0xa1; 107; 0x92; 0xfb; 0xa2; 104; 105] (mkStringInterner [] []),
+         [WR_Ok; WR_ExpectedKey; WR_Ok; WR_Ok; WR_Ok; WR_Ok; WR_Ok; WR_Ok; WR_ValueAlreadyWritten]).
+Proof. cbv zeta. split; vm_compute; reflexivity. Qed.
